@@ -150,6 +150,11 @@ impl RequestBody {
             )])
         }
     }
+    #[doc(hidden)]
+    pub fn not_required(mut self) -> Self {
+        self.required = false;
+        self
+    }
     pub fn optional(media_type: &'static str, schema: impl Into<SchemaRef>) -> Self {
         Self {
             description: None,
